@@ -273,6 +273,17 @@ func (c *Ctx) stateKeyInstallers() {
 			}
 			n++
 			r.Check(allowed[FuncName(f)], "C11.request-state", FuncName(f), "WithValue("+k+")", posf(c, call), "state installed by the loader / expiry hider only", "request-scoped client state replaced outside LoadClientState and the expiry middleware: handlers would not see the state read at the start of the request")
+			if pkgOf(f) == "ab/expire" {
+				// the expiry middleware may only hide an expired session: what it installs
+				// is its hider, on the expired edge — never a view that changes what a
+				// live session reads
+				val := Arg(call, 2)
+				if mi, ok := val.(*ssa.MakeInterface); ok {
+					val = mi.X
+				}
+				vt := val.Type().String()
+				r.Check(strings.HasSuffix(vt, "stateHider"), "C11.request-state", FuncName(f), "WithValue("+k+") value", posf(c, call), "the hider of an expired session", "the expiry middleware installs a "+vt+" as the request's "+k+" state: handlers no longer read the state as it was read at the start of the request")
+			}
 		}
 	}
 	if n == 0 {
@@ -310,6 +321,35 @@ func (c *Ctx) unwrapShape() {
 		}
 	}
 	r.Check(okPanic, "C11.unwrap", name, "panic otherwise", c.P.Pos(fn.Pos()), "an unwrappable writer is a programming error", "no panic for a writer that cannot be unwrapped (state changes would be dropped silently)")
+	// the discovery gives up only on a writer that is none of the three: not after
+	// a number of layers, a budget or anything else a deep (legitimate) middleware
+	// stack could run into
+	for _, b := range fn.Blocks {
+		for _, in := range b.Instrs {
+			pn, ok := in.(*ssa.Panic)
+			if !ok {
+				continue
+			}
+			fs := FactsAtInstr(pn)
+			failed := 0
+			for _, bb := range fn.Blocks {
+				for _, x := range bb.Instrs {
+					ta, isTA := x.(*ssa.TypeAssert)
+					if !isTA || !ta.CommaOk || ta.Referrers() == nil {
+						continue
+					}
+					for _, ref := range *ta.Referrers() {
+						if e, isE := ref.(*ssa.Extract); isE && e.Index == 1 {
+							if HasFact(fs, func(f Fact) bool { return f.SaysBool(e, false) }) {
+								failed++
+							}
+						}
+					}
+				}
+			}
+			r.Check(failed >= 3, "C11.unwrap", name, "gives up only on an unwrappable writer", posf(c, pn), "panic behind all three failed assertions", sprintf("the writer discovery can give up although the writer at hand could still be unwrapped (only %d of the 3 assertions are known to have failed here): behind enough wrappers every session/cookie change panics instead of being queued", failed))
+		}
+	}
 	// returns only the asserted *ClientStateResponseWriter
 	for _, b := range fn.Blocks {
 		for _, in := range b.Instrs {
